@@ -62,6 +62,10 @@ def handle (line : String) : String :=
     | some ss, some c => csResult ss c
     | _, _ => "bad-op"
   | ["csf", _, _] => "skip"
+  | "t1read" :: _ => "skip"      -- whole-font cases are decided by the harness oracles
+  | "t1rt" :: _ => "skip"
+  | "t1write" :: _ => "skip"
+  | "t1closure" :: _ => "skip"
   | ["encf", _, _, _, _, _] => "skip"   -- oracle-only case (float arithmetic not exact)
   | ["num", x] =>
     match parseRat x with
